@@ -33,9 +33,12 @@ STYLES = {
     'state': 'the violation should come from state that outlives its scope: a mutable default argument, a class attribute that should be '
              'per instance, a module-level helper object, an iterator or generator consumed twice, a closure capturing a loop variable',
 }
+STYLES['size'] = ('the violation should depend on the size or count of something crossing a threshold that ordinary use never reaches - a value longer than '
+                  'N characters, more than N headers / fields / parameters / routes / cookies, a body or file over some internal buffer size, a nesting depth - '
+                  'with everything below the threshold behaving correctly')
 ROUNDS = {
     'u': ['environment', 'entry_point', 'history', 'boundary'],
-    'v': ['cleanup', 'state', 'boundary', 'environment'],
+    'v': ['cleanup', 'state', 'size', 'history'],
 }
 
 TEMPLATE = open(os.path.join(HERE, 'tools', 'seed_agent_prompt.txt')).read()
